@@ -264,6 +264,9 @@ func runDisk(ch *simrt.Chooser, opt Options) RunResult {
 	d := &diskRun{res: &res, disk: disk}
 	out := simrt.Run(ch, cfg, func(s *simrt.Sim) {
 		d.real = s.Draw("disk", 4) == 0
+		if os.Getenv("VERIF_REALDISK_ONLY") != "" {
+			d.real = true
+		}
 		objRoot := s.Draw("root", 3) > 0
 		fault := diskFaults[s.Draw("fault", len(diskFaults))]
 		if opt.Scenario >= 0 {
